@@ -1088,15 +1088,19 @@ unsafe impl Trace for FmtProbe {
 }
 impl Finalize for FmtProbe {}
 pub(crate) static mut FMT_CALLS: (u32, u32) = (0, 0);
+/// the format spec (alternate, sign_plus, width, precision) that reached T's impl in the latest call
+pub(crate) static mut FMT_SPEC: (bool, bool, Option<usize>, Option<usize>) = (false, false, None, None);
 impl Debug for FmtProbe {
     fn fmt(&self, _f: &mut Formatter<'_>) -> fmt::Result {
         unsafe { FMT_CALLS.0 += self.0 as u32 };
+        unsafe { FMT_SPEC = (_f.alternate(), _f.sign_plus(), _f.width(), _f.precision()) };
         Ok(())
     }
 }
 impl Display for FmtProbe {
     fn fmt(&self, _f: &mut Formatter<'_>) -> fmt::Result {
         unsafe { FMT_CALLS.1 += self.0 as u32 };
+        unsafe { FMT_SPEC = (_f.alternate(), _f.sign_plus(), _f.width(), _f.precision()) };
         Err(fmt::Error)
     }
 }
@@ -1116,6 +1120,14 @@ pub(crate) fn cc_debug_display_forwarding() {
     kani::assert(r1.is_ok() && unsafe { FMT_CALLS } == (3, 0), "Cc::fmt::post::debug_forwards_to_T_once");
     let r2 = fmt::write(&mut s, format_args!("{}", a));
     kani::assert(r2.is_err() && unsafe { FMT_CALLS } == (3, 3), "Cc::fmt::post::display_forwards_to_T_once_and_returns_its_result");
+    kani::assert(unsafe { FMT_SPEC } == (false, false, None, None), "Cc::fmt::post::display_passes_the_callers_format_spec_to_T");
+    // "behave exactly as on T": the caller's format spec (flags, width, precision) reaches T's impl unchanged
+    let r3 = fmt::write(&mut s, format_args!("{:+#8.2}", a));
+    kani::assert(r3.is_err() && unsafe { FMT_CALLS } == (3, 6), "Cc::fmt::post::display_forwards_to_T_once_and_returns_its_result");
+    kani::assert(unsafe { FMT_SPEC } == (true, true, Some(8), Some(2)), "Cc::fmt::post::display_passes_the_callers_format_spec_to_T");
+    let r4 = fmt::write(&mut s, format_args!("{:#5?}", a));
+    kani::assert(r4.is_ok() && unsafe { FMT_CALLS } == (6, 6), "Cc::fmt::post::debug_forwards_to_T_once");
+    kani::assert(unsafe { FMT_SPEC } == (true, false, Some(5), None), "Cc::fmt::post::debug_passes_the_callers_format_spec_to_T");
     core::mem::forget(a);
 }
 
